@@ -141,6 +141,8 @@ func checkConcurrent(rec *stats.Recorder, c concCase) string {
 	return ""
 }
 
+var shareSeq int
+
 func TestC17Concurrent(t *testing.T) {
 	rec := stats.For("C17")
 	g := keyGen()
@@ -181,6 +183,17 @@ func TestC17Concurrent(t *testing.T) {
 				}
 			}
 			c.Calls = append(c.Calls, cc)
+			// resource code handing one and the same response object to overlapping requests: the call is repeated 1-3
+			// times, all copies scripted to return the very objects the first one builds (the library may read them, not
+			// write them - the race detector decides)
+			if cc.Outcome.Err == nil && rapid.IntRange(0, 3).Draw(rt, "shared_result") == 0 {
+				shareSeq++
+				key := fmt.Sprintf("shared-%d-%d", corpusSeed, shareSeq)
+				c.Calls[len(c.Calls)-1].Outcome.ShareKey = key
+				for k := rapid.IntRange(1, 3).Draw(rt, "copies"); k > 0; k-- {
+					c.Calls = append(c.Calls, c.Calls[len(c.Calls)-1])
+				}
+			}
 		}
 		if msg := checkConcurrent(rec, c); msg != "" {
 			rec.Violation("concurrent", msg, c)
